@@ -58,14 +58,16 @@ let parse_cutoff t =
   | _ -> fail ("cutoff: " ^ t)
 
 let parse_operand t =
+  if t = "foreign" then OForeign else
   if String.length t >= 2 && t.[0] = 'o' then OOuter (ni (String.sub t 1 (String.length t - 1)))
+  else if String.length t >= 2 && t.[0] = 't' then OLate (ni (String.sub t 1 (String.length t - 1)))
   else if String.length t >= 4 && t.[0] = 'l' then
     (match String.split_on_char '.' (String.sub t 1 (String.length t - 1)) with
      | [d; i] -> OLocal (ni d, ni i)
      | _ -> fail ("operand: " ^ t))
   else fail ("operand: " ^ t)
 
-let is_operand t = String.length t >= 2 && (t.[0] = 'o' || t.[0] = 'l') &&
+let is_operand t = String.length t >= 2 && (t.[0] = 'o' || t.[0] = 'l' || t.[0] = 't') &&
                    (match t.[1] with '0' .. '9' -> true | _ -> false)
 
 let rec take_operands acc = function
